@@ -1596,10 +1596,23 @@ class SQLObject(with_metaclass(declarative.DeclarativeMeta, object)):
             if not join.hasIntermediateTable() or \
                     not getattr(join, 'createRelatedTable', True):
                 continue
-            if join.soClass.__name__ > join.otherClass.__name__:
+            if join.soClass.__name__ > join.otherClass.__name__ \
+                    and cls._otherSideCreates(join):
                 continue
             joins.append(join)
         return joins
+
+    @staticmethod
+    def _otherSideCreates(join):
+        # Of two classes that declare the same many-to-many relation the
+        # one whose name sorts first owns the intermediate table; a join
+        # declared on one side only is owned by that side.
+        for other in join.otherClass.sqlmeta.joins:
+            if other and other.hasIntermediateTable() \
+                    and getattr(other, 'createRelatedTable', True) \
+                    and other.intermediateTable == join.intermediateTable:
+                return True
+        return False
 
     @classmethod
     def dropJoinTables(cls, ifExists=False, connection=None):
@@ -1610,7 +1623,8 @@ class SQLObject(with_metaclass(declarative.DeclarativeMeta, object)):
             if not join.hasIntermediateTable() or \
                     not getattr(join, 'createRelatedTable', True):
                 continue
-            if join.soClass.__name__ > join.otherClass.__name__:
+            if join.soClass.__name__ > join.otherClass.__name__ \
+                    and cls._otherSideCreates(join):
                 continue
             if ifExists and \
                not conn.tableExists(join.intermediateTable):
